@@ -20,7 +20,9 @@ CONFIG = {
             "single priority), 2 pops in 3 execute the task whose Execute inserts 1-3 further tasks (nested twice), "
             "pops down to and past empty; popped (id, priority, source, abort flags) and IsEmpty compared. "
             "drain: 4-30 top-level effects and drains on a real simulation.Simulation (NewSimulation, real attribute, "
-            "modifier, enemy and queue services; 2 characters, 2 scripted enemies, 1 unregistered id): InsertAbility "
+            "modifier, enemy and queue services; 2 characters, 2 scripted enemies, 1 unregistered id that is never on the "
+            "field): a unit taken off the field without dying (what the turn-end death check does to a unit in limbo; "
+            "also empties a side so that the next drain must end the battle before taking anything), InsertAbility "
             "with any priority/source/abort flags and a script, InsertAction, HP to zero with or without a revive "
             "listener (dead/limbo), HP restored, behaviour flags attached/removed through registered modifiers; the "
             "scripts of executing inserts and action callbacks issue the same effects; compared: InsertStart/InsertEnd/"
@@ -30,6 +32,8 @@ CONFIG = {
                 "container/heap's up/down loops (transcribed from the Go 1.23 source into Model/QueueHeap.v) is proved to "
                 "refine it for every interleaving (Proofs/QueueHeapProofs.v) and is also run against the real "
                 "queue.Handler by the correspondence check; what stays trusted is that transcription",
+                "the drain model has no neutral units (sim.neutrals is always empty in the harness): onField = member of "
+                "the living character or enemy list",
                 "drain harness content: inserted actions are issued for enemy-class units and unregistered ids only "
                 "(an alive character would need registered character content); ultCheck sees an evaluator that never "
                 "requests an ult; the cycle limit is out of reach"],
